@@ -29,6 +29,12 @@ CLAIMED = {
  'C15': dict(engine='symexec', technique='bounded symbolic execution of the real MultiAntennaArray with symbolic integer delays (forked over values and induced slice bounds, completeness query), samples as Z(seed,k)+chirp(t) terms; SMT decides alignment per sample',
              text='For 1..3 antennas, 1..2 polarisations, EVERY delay vector in 0..dmax (dmax <= 3) and the omitted default, every composition of 7 (thorough 8) samples into admissible requests, with and without set_time between requests, z3 shows antenna i sample k = own sample k + background sample k + max_delay - delay_i (per polarisation, at the right time), and that resetting the time restarts the alignment.',
              note='exact-real clock; Generator abstracted as fixed draw sequence', ref='DESIGN.md section 4 C15'),
+ 'C02': dict(engine='symexec', technique='bounded symbolic execution of the real record()/collect_data_block()/channelize() chain on a symbolic voltage stream (quantisers as per-(antenna,pol) uninterpreted functions, exact DFT, in-memory files); SMT decides every recorded byte == reference pipeline term; partitions compared term-for-term',
+             text='For every configuration in the stated set (num_branches, taps, windows per block, every num_subblocks from 1 to windows+1 incl. non-divisors, 1-2 pols, 1-2 antennas, 8/4 bit, channel selections, 1-3 blocks, 1-3 blocks per file, digitiser on/off) z3 shows that for ALL stream contents and window coefficients each recorded byte is the requantised PFB output of the digitised stream at the right channel/time/pol/re-im (or nibble) position, in the right file, with the antenna asked for exactly the warm-up window plus T*P samples per block.',
+             note='quantisers abstracted as fixed element-wise functions (property premise); exact DFT stub; sizes above the set outside', ref='DESIGN.md section 4 C02'),
+ 'C04': dict(engine='symexec+slices', technique='symbolic header length: the real get_header_size and AST slices of the padding/header-size/file-split expressions evaluated with the card count / block count as symbolic integers, decided by SMT; real record() into in-memory files parsed by an independent byte-level GUPPI parser and by the real readers under every listing permutation',
+             text='For EVERY header length (symbolic card count <= 10^4) and every DIRECTIO spelling, z3 shows the writer pads to the next multiple of 512 iff DIRECTIO != 0 with no padding when aligned, and that every reader (get_header_size users, from_data, blimpy rule) skips exactly what the writer emits; file i holds blocks [i*bpf, min((i+1)bpf, n)) for symbolic n; configuration-owned cards cannot be overridden by arbitrary user values; recordings with 0..33 user cards x DIRECTIO absent/0/1 parse exactly into the requested blocks, PKTIDX advances by samples-per-block, and block counts are independent of listing order.',
+             note='card text formatting exercised on concrete values only (symbolic int formatting not confirmed by CrossHair within budget)', ref='DESIGN.md section 4 C04'),
 }
 NA = {}
 
